@@ -71,6 +71,20 @@ fn reference(tags: &[Tag], i: usize) -> Option<Vec<String>> {
     }
     Some(words)
 }
+/// the words after each entry of tag i (None = some stage fails in the library)
+fn reference_stages(tags: &[Tag], i: usize) -> Option<Vec<Vec<String>>> {
+    let t = &tags[i];
+    let mut words: Vec<String> = match t.from { Some(f) => reference(tags, f)?, None => vec![] };
+    for w in &t.words { if !words.is_empty() { words.push(String::new()); } words.extend(formats::parse_wsca(WORD_FILES[*w].1)); }
+    let into: Vec<String> = if t.alias { formats::parse_alias(ALIAS).0 } else { vec![] };
+    let mut out = vec![];
+    for (f, fi) in &t.entries {
+        let groups = apply_filter(&formats::parse_rsca(RULE_FILES[*f].1), &filters_for(*f)[*fi].1);
+        match guarded(5_000_000, || asca::run(&groups, &words, &into, &[])) { Out::Ok(Ok(v)) => words = v, _ => return None }
+        out.push(words.clone());
+    }
+    Some(out)
+}
 fn history(tags: &[Tag], i: usize) -> Vec<RuleGroup> {
     let mut h = match tags[i].from { Some(f) => history(tags, f), None => vec![] };
     for (f, fi) in &tags[i].entries { h.extend(apply_filter(&formats::parse_rsca(RULE_FILES[*f].1), &filters_for(*f)[*fi].1)); }
@@ -131,6 +145,21 @@ fn config_case(n: usize, tags: &[Tag], order: &[usize], a: &mut Acc) {
         let alone = out_file(&sb2, &t.name).map(|x| x.1);
         let together = all_files.iter().find(|x| x.0 == t.name).map(|x| x.1.clone());
         if alone == together && alone.is_some() { a.ok += 1; } else { a.viols.push(Viol { key: key(&format!("alone-vs-all|{}", t.name)), desc: format!("tag `{}` run alone writes {:?}, run with all tags {:?} (exit {:?}); config: {}", t.name, alone, together, o2.code, cfg), case: case() }); }
+        // `-i`: one numbered file per entry, each equal to the reference after that entry
+        if let Some(stages) = reference_stages(tags, i) {
+            let sb3 = Sandbox::new("c20i", n * 8 + i);
+            setup(&sb3, tags, order);
+            a.evals += 1;
+            let _ = run_cli(&sb3.dir, &["seq", ".", "-t", &t.name, "-o", "-y", "-i"]); a.procs += 1;
+            let files = sb3.list(&format!("out/{}", t.name));
+            let mut ok = files.len() == stages.len();
+            for (k, st) in stages.iter().enumerate() {
+                let f = files.iter().find(|f| f.starts_with(&format!("{}_", k + 1)));
+                let got = f.and_then(|f| sb3.read(&format!("out/{}/{}", t.name, f)));
+                if got.as_ref().map(|g| nonblank(g)) != Some(st.iter().filter(|x| !x.is_empty()).cloned().collect::<Vec<_>>()) { ok = false; }
+            }
+            if ok { a.ok += 1; } else { a.viols.push(Viol { key: key(&format!("all-steps|{}", t.name)), desc: format!("tag `{}` with -i: files {:?} do not match the {} reference stages {:?}; config: {}", t.name, files, stages.len(), stages, cfg), case: case() }); }
+        }
         // conv tag --recurse: rule history and, when no words were added mid-pipeline, the same words through the library
         a.evals += 1;
         let o3 = run_cli(&sb2.dir, &["conv", "tag", &t.name, "-p", ".", "-r", "-o", "hist.json"]); a.procs += 1;
@@ -190,12 +219,12 @@ pub fn run() -> i32 {
     if !cli_available() { r.machinery_errors.push(format!("{} not built", CLI)); return r.finish(); }
     let thorough = r.thorough();
     let (mt, me) = if thorough { (3, 2) } else { (2, 1) };
-    r.rule = format!("every config with 1..{} tags: `%` reference of each tag in {{none}} + all tags (so every chain, fork, forward reference, self-loop and longer cycle occurs), word lists on root tags (one or two files), extra word file on pipeline tags or not, {} rule-file entries per tag from 3 rule files of 3 named groups each with filter in {{none, !{{a}}, !{{b,a}}, ~{{c}}, ~{{c,a}}}} spelled with varying case, deromaniser-only alias on some root tags, tags declared in forward and reverse order; the real `asca seq -o -y` is run in a fresh directory and the single file under out/<tag>/ is compared (non-blank lines) with asca::run composed stage by stage by a reference that reads the same files with the harness's own readers; each tag is also run alone in a fresh copy (cold cache) and must write the same file; `conv tag -r` must export the concatenated rule history, and running it through the library gives the same words when no words were added mid-pipeline; cyclic configs must be rejected without output within 20 s. Non-trivial = comparisons that held on valid configs.", mt, me);
+    r.rule = format!("every config with 1..{} tags: `%` reference of each tag in {{none}} + all tags (so every chain, fork, forward reference, self-loop and longer cycle occurs), word lists on root tags (one or two files), extra word file on pipeline tags or not, {} rule-file entries per tag from 3 rule files of 3 named groups each with filter in {{none, !{{a}}, !{{b,a}}, ~{{c}}, ~{{c,a}}}} spelled with varying case, deromaniser-only alias on some root tags, tags declared in forward and reverse order; the real `asca seq -o -y` is run in a fresh directory and the single file under out/<tag>/ is compared (non-blank lines) with asca::run composed stage by stage by a reference that reads the same files with the harness's own readers; each tag is also run alone in a fresh copy (cold cache) and must write the same file, and with `-i` one numbered file per entry equal to the reference after that entry; `conv tag -r` must export the concatenated rule history, and running it through the library gives the same words when no words were added mid-pipeline; cyclic configs must be rejected without output within 20 s. Non-trivial = comparisons that held on valid configs.", mt, me);
     r.assumptions.push("products larger than 6000 configs per tag count are walked with a fixed stride over the mixed-radix index (every choice of every dimension still occurs); the quick box (<= 2 tags, 1 entry) is complete".into());
     let configs = all_configs(mt, me);
     let mut t = Acc::default();
     par_fold(configs.len(), 2, Acc::default, |i, a| config_case(i, &configs[i].0, &configs[i].1, a), |a| t.merge(a));
-    cleanup("c20"); cleanup("c20s");
+    cleanup("c20"); cleanup("c20s"); cleanup("c20i");
     let cyc = configs.iter().filter(|c| (0..c.0.len()).any(|i| has_cycle(&c.0, i))).count();
     r.boxes.push(json!({"box": "configs", "configs": configs.len(), "cyclic_configs": cyc, "comparisons": t.evals, "cli_processes": t.procs, "held": t.ok, "cyclic_rejected": t.rejected_ok}));
     r.guard(t.ok > 500 && t.rejected_ok > 50, "more than 500 comparisons held on valid configs and more than 50 cyclic configs were rejected");
